@@ -1,5 +1,10 @@
 // autohook rewrites copies of the repository's non-test Go sources so that every mutex acquisition that is not already
-// preceded by a simhook call gets a lock gate: `simhook.Gate("auto:<file>:<line>", &<mutex expr>, <read?>)`.
+// preceded by a simhook call gets a lock gate: `simhook.Gate("auto:<file>:<line>", &<mutex expr>, <read?>)`, and so
+// that the place where another goroutine classically gets in - right after a mutex is released (non-deferred
+// Unlock/RUnlock) - gets a yield point `simhook.Yield("auto:unlock:<file>:<line>")`.
+// (Yields in front of select statements were tried and dropped: they park a sender between taking the listener's lock
+// and its select, and when it resumes with both the cancellation and a receiver ready the Go runtime picks the case at
+// random - outside the simulator's control, so such runs do not replay.)
 // The rewritten files are used through `go build -overlay`; nothing in the repository is touched. Because it works on
 // whatever the working tree contains, lock sites added by a change under test are instrumented as well.
 //
@@ -41,7 +46,7 @@ func main() {
 				return nil
 			}
 			src, err := os.ReadFile(path)
-			if err != nil || !(bytes.Contains(src, []byte(".Lock()")) || bytes.Contains(src, []byte(".RLock()"))) {
+			if err != nil || !(bytes.Contains(src, []byte("Lock()"))) {
 				return nil
 			}
 			if rewritten, n := rewrite(rel, src); n > 0 {
@@ -112,11 +117,31 @@ func rewrite(rel string, src []byte) ([]byte, int) {
 		}
 		return sel.X, sel.Sel.Name == "RLock", true
 	}
+	unlockCall := func(s ast.Stmt) bool {
+		es, isExpr := s.(*ast.ExprStmt)
+		if !isExpr {
+			return false
+		}
+		call, isCall := es.X.(*ast.CallExpr)
+		if !isCall || len(call.Args) != 0 {
+			return false
+		}
+		sel, isSel := call.Fun.(*ast.SelectorExpr)
+		return isSel && (sel.Sel.Name == "Unlock" || sel.Sel.Name == "RUnlock")
+	}
+	yield := func(kind string, at token.Pos) ast.Stmt {
+		pos := fset.Position(at)
+		return &ast.ExprStmt{X: &ast.CallExpr{
+			Fun:  &ast.SelectorExpr{X: ast.NewIdent(hookName), Sel: ast.NewIdent("Yield")},
+			Args: []ast.Expr{&ast.BasicLit{Kind: token.STRING, Value: strconv.Quote(fmt.Sprintf("auto:%s:%s:%d", kind, rel, pos.Line))}},
+		}}
+	}
 	var fix func(list []ast.Stmt) []ast.Stmt
 	fix = func(list []ast.Stmt) []ast.Stmt {
 		var out []ast.Stmt
 		for i, s := range list {
-			if recv, read, ok := lockCall(s); ok && !(i > 0 && isHookCall(list[i-1])) {
+			hooked := i > 0 && isHookCall(list[i-1])
+			if recv, read, ok := lockCall(s); ok && !hooked {
 				pos := fset.Position(s.Pos())
 				point := fmt.Sprintf("auto:%s:%d", rel, pos.Line)
 				gate := &ast.ExprStmt{X: &ast.CallExpr{
@@ -131,6 +156,10 @@ func rewrite(rel string, src []byte) ([]byte, int) {
 				n++
 			}
 			out = append(out, s)
+			if unlockCall(s) && !(i+1 < len(list) && isHookCall(list[i+1])) {
+				out = append(out, yield("unlock", s.Pos()))
+				n++
+			}
 		}
 		return out
 	}
